@@ -161,6 +161,8 @@ func readCollection(source []byte, injectorFactory func(int) (injector, error), 
 	total := len(source)
 	if size, err := readCollectionSize(reader, version); err != nil {
 		return err
+	} else if err := checkCollectionSize(size, 1, reader.Len()); err != nil {
+		return err
 	} else if inj, err := injectorFactory(size); err != nil {
 		return err
 	} else {
@@ -225,6 +227,22 @@ func readCollectionSize(source io.Reader, version primitive.ProtocolVersion) (si
 	}
 	if err != nil {
 		err = fmt.Errorf("cannot read collection size: %w", err)
+	} else if size < 0 {
+		err = fmt.Errorf("cannot read collection size: %w", collectionSizeNegative(size))
 	}
 	return
 }
+
+// checkCollectionSize verifies that a collection size read from the wire is plausible before anything is allocated for
+// the elements: every element (for maps: every key and every value) is preceded by its length, so a collection cannot have
+// more of them than there are bytes left.
+func checkCollectionSize(size int, lengthsPerElement int, remaining int) error {
+	if size*lengthsPerElement > remaining && size > maxUncheckedCollectionSize {
+		return fmt.Errorf("collection size %d exceeds what the remaining %d bytes can hold", size, remaining)
+	}
+	return nil
+}
+
+// Collections up to this size are not subject to checkCollectionSize: allocating for them is cheap, and a truncated
+// collection is then reported by the element that cannot be read.
+const maxUncheckedCollectionSize = 1024
